@@ -240,6 +240,9 @@ func NewFont(ld *ot.Loader) (*Font, error) {
 
 	raw, _ = ld.RawTable(ot.MustNewTag("avar"))
 	out.avar, _, _ = tables.ParseAvar(raw)
+	if len(out.avar.AxisSegmentMaps) != len(out.fvar) { // the segment maps are indexed by axis
+		out.avar = tables.Avar{}
+	}
 
 	out.upem = out.head.Upem()
 
